@@ -218,15 +218,15 @@ func main() {
 		ip4  []byte
 		ip6  []byte
 	}{
-		{"client.lla", pgen.MACClient1, []byte{192, 168, 0, 7}, pgen.IP6s[0]},        // tracked by rule: LAN address / link-local
-		{"client.gua", pgen.MACClient2, []byte{192, 168, 0, 8}, pgen.IP6s[4]},        // tracked by rule: global IPv6 from a local host
-		{"client.ula", pgen.MACClient2, []byte{192, 168, 0, 8}, pgen.IP6s[6]},        // fc00::/7 counts as global unicast
-		{"own", pgen.DefaultCfg.HostMAC, []byte{192, 168, 0, 129}, pgen.IP6s[1]},     // own MAC: never tracked
+		{"client.lla", pgen.MACClient1, []byte{192, 168, 0, 7}, pgen.IP6s[0]},            // tracked by rule: LAN address / link-local
+		{"client.gua", pgen.MACClient2, []byte{192, 168, 0, 8}, pgen.IP6s[4]},            // tracked by rule: global IPv6 from a local host
+		{"client.ula", pgen.MACClient2, []byte{192, 168, 0, 8}, pgen.IP6s[6]},            // fc00::/7 counts as global unicast
+		{"own", pgen.DefaultCfg.HostMAC, []byte{192, 168, 0, 129}, pgen.IP6s[1]},         // own MAC: never tracked
 		{"router.gua", pgen.DefaultCfg.RouterMAC, []byte{192, 168, 0, 11}, pgen.IP6s[4]}, // forwarded global IPv6: untracked; the router's own IPv4 is tracked
 		{"router.lla", pgen.DefaultCfg.RouterMAC, []byte{192, 168, 0, 11}, pgen.IP6s[0]}, // the router's link-local address is tracked
-		{"mcast", pgen.MACMcast4, []byte{192, 168, 0, 9}, pgen.IP6s[0]},              // group source MAC: never tracked
-		{"offlan", pgen.MACClient1, []byte{10, 0, 0, 7}, pgen.IP6s[7]},               // off-LAN IPv4 / multicast IPv6 source
-		{"unspec", pgen.MACClient1, []byte{0, 0, 0, 0}, pgen.IP6s[8]},                // 0.0.0.0 / :: (DHCP discover, DAD)
+		{"mcast", pgen.MACMcast4, []byte{192, 168, 0, 9}, pgen.IP6s[0]},                  // group source MAC: never tracked
+		{"offlan", pgen.MACClient1, []byte{10, 0, 0, 7}, pgen.IP6s[7]},                   // off-LAN IPv4 / multicast IPv6 source
+		{"unspec", pgen.MACClient1, []byte{0, 0, 0, 0}, pgen.IP6s[8]},                    // 0.0.0.0 / :: (DHCP discover, DAD)
 	}
 	for _, src := range srcs {
 		for v6 := 0; v6 < 2; v6++ {
